@@ -7,7 +7,7 @@
      DoneOk  every dequeued task has all its edges and its final barrier / retry attributes; nodes not
              yet dequeued carry no attributes.
    All theorems are conditional on compose returning Val (the fuel sufficed). *)
-From Coq Require Import String List Bool ZArith Arith Lia Permutation.
+From Coq Require Import String List Bool ZArith Arith Lia Permutation Sorted OrderedTypeEx.
 From Orq Require Import GenSpecMeta Base State Composer.
 Import ListNotations.
 Open Scope string_scope.
@@ -1089,6 +1089,567 @@ Proof.
     apply String.eqb_eq. auto.
 Qed.
 
+(* ------------------------------------------------------------- String.leb is a total order *)
+
+Lemma string_leb_iff : forall a b, String.leb a b = true <-> a = b \/ String_as_OT.lt a b.
+Proof.
+  intros a b. unfold String.leb.
+  pose proof (String_as_OT.cmp_eq a b) as He. pose proof (String_as_OT.cmp_lt a b) as Hl.
+  unfold String_as_OT.cmp in *. destruct (String.compare a b) eqn:E; split; intro H; try reflexivity; try discriminate.
+  - left. apply He. reflexivity.
+  - right. apply Hl. reflexivity.
+  - destruct H as [H|H]; [apply He in H; discriminate|apply Hl in H; discriminate].
+Qed.
+
+Lemma string_leb_trans : forall a b c, String.leb a b = true -> String.leb b c = true -> String.leb a c = true.
+Proof.
+  intros a b c H1 H2. apply string_leb_iff in H1. apply string_leb_iff in H2. apply string_leb_iff.
+  destruct H1 as [H1|H1]; [subst; exact H2|]. destruct H2 as [H2|H2]; [subst; right; exact H1|].
+  right. eapply String_as_OT.lt_trans; eauto.
+Qed.
+
+Lemma string_leb_refl : forall a, String.leb a a = true.
+Proof. intro a. apply string_leb_iff. left. reflexivity. Qed.
+
+(* ------------------------------------------------------------------- insertion sort facts *)
+
+Section SortFacts.
+  Context {A : Type} (leb : A -> A -> bool).
+  Hypothesis leb_total : forall a b, leb a b = true \/ leb b a = true.
+  Hypothesis leb_trans : forall a b c, leb a b = true -> leb b c = true -> leb a c = true.
+
+  Definition lesorted : list A -> Prop := StronglySorted (fun a b => leb a b = true).
+
+  Lemma insert_sorted_lesorted : forall x l, lesorted l -> lesorted (insert_sorted leb x l).
+  Proof.
+    intros x l H. induction H as [|y l Hl IH Hy]; simpl.
+    - constructor; constructor.
+    - destruct (leb y x) eqn:E.
+      + constructor; [exact IH|]. apply Forall_forall. intros z Hz. apply in_insert_sorted in Hz.
+        destruct Hz as [Hz|Hz]; [subst; exact E|]. rewrite Forall_forall in Hy. apply Hy. exact Hz.
+      + assert (Hxy : leb x y = true) by (destruct (leb_total x y) as [T|T]; [exact T|congruence]).
+        constructor; [constructor; assumption|]. constructor; [exact Hxy|].
+        apply Forall_forall. intros z Hz. rewrite Forall_forall in Hy. eapply leb_trans; [exact Hxy|apply Hy; exact Hz].
+  Qed.
+
+  Lemma sort_by_lesorted : forall l, lesorted (sort_by leb l).
+  Proof.
+    intro l. unfold sort_by.
+    assert (H : forall acc, lesorted acc -> lesorted (fold_left (fun acc x => insert_sorted leb x acc) l acc)).
+    { induction l as [|x l IH]; intros acc Ha; simpl; [exact Ha|]. apply IH. apply insert_sorted_lesorted. exact Ha. }
+    apply H. constructor.
+  Qed.
+
+  Lemma insert_at_end : forall x l, (forall y, In y l -> leb y x = true) -> insert_sorted leb x l = app l [x].
+  Proof.
+    intros x l. induction l as [|y l IH]; intro H; simpl; [reflexivity|].
+    rewrite (H y (or_introl eq_refl)). rewrite IH; [reflexivity|]. intros z Hz. apply H. right. exact Hz.
+  Qed.
+
+  Lemma lesorted_app_elim : forall l1 l2, lesorted (app l1 l2) -> forall x y, In x l1 -> In y l2 -> leb x y = true.
+  Proof.
+    induction l1 as [|a l1 IH]; intros l2 H x y Hx Hy; [contradiction|].
+    simpl in H. inversion H as [|b m Hm Hb]; subst. destruct Hx as [Hx|Hx].
+    - subst. rewrite Forall_forall in Hb. apply Hb. apply in_or_app. right. exact Hy.
+    - eapply IH; eauto.
+  Qed.
+
+  Lemma sort_by_lesorted_id : forall l, lesorted l -> sort_by leb l = l.
+  Proof.
+    intros l H. unfold sort_by.
+    assert (G : forall l acc, lesorted (app acc l) ->
+                fold_left (fun acc x => insert_sorted leb x acc) l acc = app acc l).
+    { clear l H. induction l as [|x l IH]; intros acc Ha; simpl; [symmetry; apply app_nil_r|].
+      rewrite insert_at_end.
+      - rewrite IH; rewrite <- app_assoc; [reflexivity|exact Ha].
+      - intros y Hy. apply (lesorted_app_elim acc (x :: l) Ha y x Hy). left. reflexivity. }
+    apply (G l []). exact H.
+  Qed.
+
+  Lemma sort_by_idem : forall l, sort_by leb (sort_by leb l) = sort_by leb l.
+  Proof. intro l. apply sort_by_lesorted_id, sort_by_lesorted. Qed.
+
+  Lemma perm_insert_sorted : forall x l, Permutation (insert_sorted leb x l) (x :: l).
+  Proof.
+    intros x l. induction l as [|y l IH]; simpl; [apply Permutation_refl|].
+    destruct (leb y x); [|apply Permutation_refl].
+    eapply Permutation_trans; [apply perm_skip; exact IH|apply perm_swap].
+  Qed.
+
+  Lemma perm_sort_by : forall l, Permutation (sort_by leb l) l.
+  Proof.
+    intro l. unfold sort_by.
+    assert (H : forall acc, Permutation (fold_left (fun acc x => insert_sorted leb x acc) l acc) (app acc l)).
+    { induction l as [|x l IH]; intro acc; simpl; [rewrite app_nil_r; apply Permutation_refl|].
+      eapply Permutation_trans; [apply IH|]. eapply Permutation_trans; [apply Permutation_app_tail, perm_insert_sorted|].
+      simpl. apply Permutation_middle. }
+    apply (H []).
+  Qed.
+
+  Hypothesis leb_antisym : forall a b, leb a b = true -> leb b a = true -> a = b.
+
+  Lemma lesorted_perm_eq : forall l1 l2, lesorted l1 -> lesorted l2 -> Permutation l1 l2 -> l1 = l2.
+  Proof.
+    induction l1 as [|a l1 IH]; intros l2 H1 H2 P.
+    - apply Permutation_nil in P. subst. reflexivity.
+    - destruct l2 as [|b l2]; [apply Permutation_sym, Permutation_nil in P; discriminate|].
+      inversion H1 as [|x m Hm Ha]; subst. inversion H2 as [|x m Hm2 Hb]; subst.
+      rewrite Forall_forall in Ha, Hb.
+      assert (Hab : a = b).
+      { assert (Ia : In a (b :: l2)) by (eapply Permutation_in; [exact P|left; reflexivity]).
+        assert (Ib : In b (a :: l1)) by (eapply Permutation_in; [apply Permutation_sym; exact P|left; reflexivity]).
+        destruct Ia as [Ia|Ia]; [auto|]. destruct Ib as [Ib|Ib]; [auto|].
+        apply leb_antisym; [apply Ha; exact Ib|apply Hb; exact Ia]. }
+      subst b. f_equal. apply IH; [assumption|assumption|]. eapply Permutation_cons_inv. exact P.
+  Qed.
+
+  Lemma sort_by_perm : forall l1 l2, Permutation l1 l2 -> sort_by leb l1 = sort_by leb l2.
+  Proof.
+    intros l1 l2 P. apply lesorted_perm_eq; try apply sort_by_lesorted.
+    eapply Permutation_trans; [apply perm_sort_by|]. eapply Permutation_trans; [exact P|].
+    apply Permutation_sym, perm_sort_by.
+  Qed.
+End SortFacts.
+
+(* --------------------------------------------------- serialize o deserialize o serialize *)
+
+Lemma adj_leb_total : forall a b, adj_leb a b = true \/ adj_leb b a = true.
+Proof. intros a b. unfold adj_leb. apply String.leb_total. Qed.
+Lemma adj_leb_trans : forall a b c, adj_leb a b = true -> adj_leb b c = true -> adj_leb a c = true.
+Proof. intros a b c. unfold adj_leb. apply string_leb_trans. Qed.
+
+Lemma adj_edge_eta : forall t a, adj_of_edge (edge_of_adj t a) = a.
+Proof. intros t [i k r c]; reflexivity. Qed.
+
+Lemma filter_src_block : forall t s (l : list sadj),
+  filter (fun e => String.eqb (e_src e) t) (map (edge_of_adj s) l) =
+  if String.eqb s t then map (edge_of_adj s) l else [].
+Proof.
+  intros t s l. induction l as [|a l IH]; simpl; [destruct (String.eqb s t); reflexivity|].
+  rewrite IH. destruct (String.eqb s t); reflexivity.
+Qed.
+
+Lemma out_edges_restored : forall (A : gnode -> list sadj) ns n,
+  NoDup (map n_id ns) -> In n ns -> (forall m, n_id m = n_id n -> A m = A n) ->
+  filter (fun e => String.eqb (e_src e) (n_id n))
+         (flat_map (fun m => map (edge_of_adj (n_id m)) (A m)) ns) = map (edge_of_adj (n_id n)) (A n).
+Proof.
+  intros A ns n. induction ns as [|m ns IH]; intros Hnd Hin HA; [contradiction|].
+  simpl in Hnd. inversion Hnd as [|x l Hx Hl]; subst. simpl. rewrite filter_app, filter_src_block.
+  destruct (String.eqb (n_id m) (n_id n)) eqn:E.
+  - apply String.eqb_eq in E. rewrite (HA m E), E.
+    assert (Z : filter (fun e => String.eqb (e_src e) (n_id n))
+                       (flat_map (fun m => map (edge_of_adj (n_id m)) (A m)) ns) = []).
+    { clear IH Hin Hnd. induction ns as [|k ns IHk]; [reflexivity|]. simpl.
+      rewrite filter_app, filter_src_block.
+      destruct (String.eqb (n_id k) (n_id n)) eqn:Ek.
+      - exfalso. apply Hx. apply String.eqb_eq in Ek. rewrite E, <- Ek. left. reflexivity.
+      - simpl. apply IHk; [intro H; apply Hx; right; exact H|]. inversion Hl; assumption. }
+    rewrite Z. apply app_nil_r.
+  - destruct Hin as [Hin|Hin]; [subst m; rewrite String.eqb_refl in E; discriminate|].
+    simpl. apply IH; assumption.
+Qed.
+
+Lemma out_edges_deserialized : forall g n, NoDup (map n_id (g_nodes g)) -> In n (g_nodes g) ->
+  g_out_edges (g_deserialize (g_serialize g)) (n_id n) =
+  map (edge_of_adj (n_id n)) (sort_by adj_leb (map adj_of_edge (g_out_edges g (n_id n)))).
+Proof.
+  intros g n Hnd Hn. unfold g_out_edges at 1. unfold g_deserialize, g_serialize. simpl.
+  rewrite combine_map_self, flat_map_concat_map, map_map, <- flat_map_concat_map.
+  apply (out_edges_restored (fun m => sort_by adj_leb (map adj_of_edge (g_out_edges g (n_id m)))) _ n Hnd Hn).
+  intros m Hm. rewrite Hm. reflexivity.
+Qed.
+
+Theorem serialize_roundtrip : forall g, NoDup (map n_id (g_nodes g)) ->
+  g_serialize (g_deserialize (g_serialize g)) = g_serialize g.
+Proof.
+  intros g Hnd.
+  assert (H : sg_adj (g_serialize (g_deserialize (g_serialize g))) = sg_adj (g_serialize g)).
+  { simpl. apply map_ext_in. intros n Hn. rewrite (out_edges_deserialized g n Hnd Hn).
+    rewrite map_map. rewrite (map_ext _ (fun a => a)) by (intro a; apply adj_edge_eta). rewrite map_id.
+    apply sort_by_idem; [apply adj_leb_total|apply adj_leb_trans]. }
+  destruct (g_serialize (g_deserialize (g_serialize g))) as [ns adj] eqn:E.
+  assert (Hns : ns = g_nodes g) by (apply (f_equal sg_nodes) in E; simpl in E; symmetry; exact E).
+  simpl in H. subst ns adj. reflexivity.
+Qed.
+
+(* ------------------------------------------------------ independence of declaration order *)
+
+Lemma aget_perm : forall (V : Type) (k : string) (l1 l2 : list (string * V)),
+  Permutation l1 l2 -> NoDup (map fst l1) -> aget String.eqb k l1 = aget String.eqb k l2.
+Proof.
+  intros V k l1 l2 P. induction P as [|[k1 v1] l1 l2 P IH|[k1 v1] [k2 v2] l|l1 l2 l3 P1 IH1 P2 IH2]; intro Hnd.
+  - reflexivity.
+  - simpl. simpl in Hnd. inversion Hnd; subst. rewrite IH by assumption. reflexivity.
+  - simpl. simpl in Hnd. inversion Hnd as [|x m Hx Hm]; subst.
+    destruct (String.eqb k k1) eqn:E1; destruct (String.eqb k k2) eqn:E2; try reflexivity.
+    exfalso. apply String.eqb_eq in E1. apply String.eqb_eq in E2. subst. apply Hx. left. reflexivity.
+  - rewrite IH1 by exact Hnd. apply IH2. eapply Permutation_NoDup; [apply Permutation_map; exact P1|exact Hnd].
+Qed.
+
+Lemma perm_filter : forall A (p : A -> bool) l1 l2, Permutation l1 l2 -> Permutation (filter p l1) (filter p l2).
+Proof.
+  intros A p l1 l2 P. induction P as [|x l1 l2 P IH|x y l|l1 l2 l3 P1 IH1 P2 IH2]; simpl.
+  - constructor.
+  - destruct (p x); [apply perm_skip|]; exact IH.
+  - destruct (p x); destruct (p y); try apply Permutation_refl. apply perm_swap.
+  - eapply Permutation_trans; eauto.
+Qed.
+
+Lemma perm_flat_map : forall A B (f : A -> list B) l1 l2, Permutation l1 l2 -> Permutation (flat_map f l1) (flat_map f l2).
+Proof.
+  intros A B f l1 l2 P. induction P as [|x l1 l2 P IH|x y l|l1 l2 l3 P1 IH1 P2 IH2]; simpl.
+  - constructor.
+  - apply Permutation_app_head. exact IH.
+  - rewrite !app_assoc. apply Permutation_app_tail. apply Permutation_app_comm.
+  - eapply Permutation_trans; eauto.
+Qed.
+
+Lemma flat_map_ext_all : forall A B (f g : A -> list B) l, (forall x, f x = g x) -> flat_map f l = flat_map g l.
+Proof. intros A B f g l H. induction l as [|x l IH]; simpl; [reflexivity|rewrite H, IH; reflexivity]. Qed.
+
+Lemma fold_left_ext_all : forall A B (f g : A -> B -> A) l a, (forall a b, f a b = g a b) -> fold_left f l a = fold_left g l a.
+Proof. intros A B f g l. induction l as [|x l IH]; intros a H; simpl; [reflexivity|rewrite H; apply IH; exact H]. Qed.
+
+(* what the composer reads from a definition *)
+Record spec_equiv (sp1 sp2 : wf_spec) : Prop := {
+  se_task : forall t, spec_get_task sp1 t = spec_get_task sp2 t;
+  se_prev : forall t, spec_prev_count sp1 t = spec_prev_count sp2 t;
+  se_start : spec_start_tasks sp1 = spec_start_tasks sp2;
+  se_size : spec_size sp1 = spec_size sp2 }.
+
+Lemma se_next : forall sp1 sp2, spec_equiv sp1 sp2 -> forall t, spec_next_tasks sp1 t = spec_next_tasks sp2 t.
+Proof. intros sp1 sp2 E t. unfold spec_next_tasks. rewrite (se_task _ _ E). reflexivity. Qed.
+
+Lemma perm_spec_equiv : forall sp1 sp2,
+  Permutation (wf_tasks sp1) (wf_tasks sp2) -> NoDup (map fst (wf_tasks sp1)) -> spec_equiv sp1 sp2.
+Proof.
+  intros sp1 sp2 P Hnd.
+  assert (T : forall t, spec_get_task sp1 t = spec_get_task sp2 t).
+  { intro t. unfold spec_get_task. destruct (string_in t RESERVED_TASK_NAMES); [reflexivity|].
+    apply aget_perm; assumption. }
+  assert (N : forall t, spec_next_tasks sp1 t = spec_next_tasks sp2 t).
+  { intro t. unfold spec_next_tasks. rewrite T. reflexivity. }
+  assert (Pc : forall t, spec_prev_count sp1 t = spec_prev_count sp2 t).
+  { intro t. unfold spec_prev_count.
+    rewrite (flat_map_ext_all _ _ _ (fun '(n, _) => filter (fun '(d, _, _) => String.eqb d t) (spec_next_tasks sp2 n)))
+      by (intros [n ts]; rewrite N; reflexivity).
+    apply Permutation_length. apply perm_flat_map. exact P. }
+  constructor.
+  - exact T.
+  - exact Pc.
+  - unfold spec_start_tasks.
+    rewrite (filter_ext _ (fun t => Nat.eqb (spec_prev_count sp2 t) 0)) by (intro t; rewrite Pc; reflexivity).
+    apply sort_by_perm; [apply String.leb_total|apply string_leb_trans|apply String.leb_antisym|].
+    apply perm_filter. apply Permutation_map. exact P.
+  - unfold spec_size.
+    rewrite (flat_map_ext_all _ _ _ (fun '(n, _) => spec_next_tasks sp2 n)) by (intros [n ts]; apply N).
+    apply Permutation_length. apply perm_flat_map. exact P.
+Qed.
+
+Section Equiv.
+  Variables sp1 sp2 : wf_spec.
+  Hypothesis E : spec_equiv sp1 sp2.
+
+  Lemma eq_next_sorted : forall t, spec_next_sorted sp1 t = spec_next_sorted sp2 t.
+  Proof. intro t. unfold spec_next_sorted. rewrite (se_next _ _ E). reflexivity. Qed.
+
+  Lemma eq_join : forall t, spec_is_join_task sp1 t = spec_is_join_task sp2 t.
+  Proof. intro t. unfold spec_is_join_task. rewrite (se_task _ _ E). reflexivity. Qed.
+
+  Lemma eq_split : forall t, spec_is_split_task sp1 t = spec_is_split_task sp2 t.
+  Proof. intro t. unfold spec_is_split_task. rewrite eq_join, (se_prev _ _ E). reflexivity. Qed.
+
+  Lemma eq_in_cycle_loop : forall t fuel q trav, in_cycle_loop sp1 t fuel q trav = in_cycle_loop sp2 t fuel q trav.
+  Proof.
+    intros t fuel. induction fuel as [|f IH]; intros q trav; destruct q as [|n q]; simpl; try reflexivity.
+    rewrite eq_next_sorted, !IH. reflexivity.
+  Qed.
+
+  Lemma eq_in_cycle_r : forall t, in_cycle_r sp1 t = in_cycle_r sp2 t.
+  Proof.
+    intro t. unfold in_cycle_r, spec_in_cycle. rewrite (se_size _ _ E), eq_next_sorted, eq_in_cycle_loop. reflexivity.
+  Qed.
+
+  Lemma eq_step_next : forall t splits acc nx, step_next sp1 t splits acc nx = step_next sp2 t splits acc nx.
+  Proof. intros t splits acc nx. unfold step_next. rewrite eq_in_cycle_r. reflexivity. Qed.
+
+  Lemma eq_process : forall rt w t splits, process sp1 rt w t splits = process sp2 rt w t splits.
+  Proof.
+    intros rt w t splits. unfold process. rewrite (se_task _ _ E), eq_join, eq_split, eq_in_cycle_r, eq_next_sorted.
+    destruct (spec_get_task sp2 t); [|reflexivity].
+    destruct (if spec_is_split_task sp2 t then in_cycle_r sp2 t else Val true); [|reflexivity].
+    rewrite (fold_left_ext_all _ _ _ (step_next sp2 t (if a then splits else app splits [t]))) by (intros; apply eq_step_next).
+    reflexivity.
+  Qed.
+
+  Lemma eq_compose_loop : forall rt fuel w, compose_loop sp1 rt fuel w = compose_loop sp2 rt fuel w.
+  Proof.
+    intros rt fuel. induction fuel as [|f IH]; intro w; simpl; [reflexivity|].
+    destruct (w_queue w) as [|[t s] q]; [reflexivity|]. rewrite eq_process.
+    destruct (process sp2 rt _ t s); [apply IH|reflexivity].
+  Qed.
+
+  Lemma eq_compose : forall rt fuel, compose sp1 rt fuel = compose sp2 rt fuel.
+  Proof.
+    intros rt fuel. unfold compose, compose_work, compose_init. rewrite (se_start _ _ E), eq_compose_loop. reflexivity.
+  Qed.
+End Equiv.
+
+(* the composed graph does not depend on the order in which the tasks are declared *)
+Theorem declaration_order : forall sp1 sp2 rt fuel,
+  Permutation (wf_tasks sp1) (wf_tasks sp2) -> NoDup (map fst (wf_tasks sp1)) ->
+  compose sp1 rt fuel = compose sp2 rt fuel.
+Proof. intros sp1 sp2 rt fuel P Hnd. apply eq_compose. apply perm_spec_equiv; assumption. Qed.
+
+(* ---------------------------------------- the sort of get_next_tasks is stable: retry policy *)
+
+Lemma nt_leb_total : forall a b, nt_leb a b = true \/ nt_leb b a = true.
+Proof. intros a b. unfold nt_leb. apply String.leb_total. Qed.
+Lemma nt_leb_trans : forall a b c, nt_leb a b = true -> nt_leb b c = true -> nt_leb a c = true.
+Proof. intros a b c. unfold nt_leb. apply string_leb_trans. Qed.
+
+Definition named (k : string) (x : string * json * nat) : bool := String.eqb (nt_name x) k.
+
+Lemma filter_named_insert : forall k x l, lesorted nt_leb l ->
+  filter (named k) (insert_sorted nt_leb x l) =
+  if named k x then app (filter (named k) l) [x] else filter (named k) l.
+Proof.
+  intros k x l H. induction H as [|y l Hl IH Hy]; simpl.
+  - destruct (named k x); reflexivity.
+  - destruct (nt_leb y x) eqn:E; simpl.
+    + rewrite IH. destruct (named k y); destruct (named k x); reflexivity.
+    + destruct (named k x) eqn:Px; [|reflexivity].
+      unfold named in Px. apply String.eqb_eq in Px.
+      assert (Py : named k y = false).
+      { unfold named. destruct (String.eqb (nt_name y) k) eqn:Ey; [|reflexivity].
+        apply String.eqb_eq in Ey. unfold nt_leb in E. rewrite Ey, Px, string_leb_refl in E. discriminate. }
+      assert (Pl : filter (named k) l = []).
+      { rewrite Forall_forall in Hy. clear IH Hl. induction l as [|z l IHl]; [reflexivity|]. simpl.
+        assert (Pz : named k z = false).
+        { unfold named. destruct (String.eqb (nt_name z) k) eqn:Ez; [|reflexivity].
+          apply String.eqb_eq in Ez. pose proof (Hy z (or_introl eq_refl)) as Hyz.
+          unfold nt_leb in *. rewrite Ez in Hyz. rewrite Px in E. congruence. }
+        rewrite Pz. apply IHl. intros w Hw. apply Hy. right. exact Hw. }
+      rewrite Py, Pl. reflexivity.
+Qed.
+
+Lemma filter_named_sort : forall k l, filter (named k) (sort_by nt_leb l) = filter (named k) l.
+Proof.
+  intros k l. unfold sort_by.
+  assert (H : forall acc, lesorted nt_leb acc ->
+              filter (named k) (fold_left (fun acc x => insert_sorted nt_leb x acc) l acc) =
+              app (filter (named k) acc) (filter (named k) l)).
+  { induction l as [|x l IH]; intros acc Ha; simpl; [symmetry; apply app_nil_r|].
+    rewrite IH by (apply insert_sorted_lesorted; [apply nt_leb_total|apply nt_leb_trans|exact Ha]).
+    rewrite filter_named_insert by exact Ha. destruct (named k x); [rewrite <- app_assoc|]; reflexivity. }
+  apply (H []). constructor.
+Qed.
+
+Lemma retry_fold_filter : forall l b, fold_left retry_upd l b = fold_left retry_upd (filter (named "retry") l) b.
+Proof.
+  induction l as [|x l IH]; intro b; simpl; [reflexivity|]. unfold named at 1.
+  destruct (String.eqb (nt_name x) "retry") eqn:E; simpl.
+  - apply IH.
+  - rewrite <- IH. unfold retry_upd at 2. rewrite E. reflexivity.
+Qed.
+
+(* the expected retry policy read off the transitions in declaration order: the last retry command
+   (highest transition index, last position in its do list) wins over the declared retry spec *)
+Theorem exp_retry_unsorted : forall sp rt t,
+  exp_retry sp rt t =
+  fold_left retry_upd (spec_next_tasks sp t) (match aget String.eqb t rt with Some r => r | None => JNull end).
+Proof.
+  intros sp rt t. unfold exp_retry, spec_next_sorted.
+  rewrite retry_fold_filter, filter_named_sort, <- retry_fold_filter. reflexivity.
+Qed.
+
+(* ------------------------------------------------- the fuel of the in_cycle search suffices *)
+
+Definition wsum (sp : wf_spec) (ex : string -> bool) (l : list (string * task_spec)) : nat :=
+  list_sum (map (fun '(n, _) => if ex n then 0 else length (spec_next_tasks sp n)) l).
+
+Lemma wsum_ext : forall sp ex1 ex2 l, (forall k, ex1 k = ex2 k) -> wsum sp ex1 l = wsum sp ex2 l.
+Proof.
+  intros sp ex1 ex2 l H. unfold wsum. f_equal. apply map_ext. intros [n ts]. rewrite H. reflexivity.
+Qed.
+
+Lemma wsum_cons : forall sp ex k ts l,
+  wsum sp ex ((k, ts) :: l) = (if ex k then 0 else length (spec_next_tasks sp k)) + wsum sp ex l.
+Proof. reflexivity. Qed.
+
+Lemma wsum_mono : forall sp ex n l, wsum sp (fun k => String.eqb k n || ex k) l <= wsum sp ex l.
+Proof.
+  intros sp ex n l. induction l as [|[k ts] l IH]; [unfold wsum; simpl; lia|].
+  rewrite !wsum_cons. destruct (String.eqb k n); simpl; [lia|]. destruct (ex k); lia.
+Qed.
+
+Lemma wsum_step : forall sp ex n l, ex n = false -> NoDup (map fst l) ->
+  wsum sp (fun k => String.eqb k n || ex k) l + (if in_dec string_dec n (map fst l) then length (spec_next_tasks sp n) else 0)
+  <= wsum sp ex l.
+Proof.
+  intros sp ex n l Hex. induction l as [|[k ts] l IH]; intro Hnd; [unfold wsum; simpl; lia|].
+  simpl in Hnd. inversion Hnd as [|x m Hx Hm]; subst. specialize (IH Hm).
+  rewrite !wsum_cons. simpl map.
+  destruct (String.eqb k n) eqn:E.
+  - apply String.eqb_eq in E. subst k. rewrite Hex. simpl orb. cbv iota.
+    destruct (in_dec string_dec n (n :: map fst l)) as [C0|C]; [|exfalso; apply C; left; reflexivity].
+    destruct (in_dec string_dec n (map fst l)) as [C|C1]; [contradiction|].
+    pose proof (wsum_mono sp ex n l) as M. lia.
+  - simpl orb. destruct (in_dec string_dec n (k :: map fst l)) as [I|I];
+      destruct (in_dec string_dec n (map fst l)) as [J|J]; try lia.
+    exfalso. destruct I as [I|I]; [subst k; rewrite String.eqb_refl in E; discriminate|contradiction].
+Qed.
+
+Lemma next_len_declared : forall sp n,
+  length (spec_next_tasks sp n) <= (if in_dec string_dec n (map fst (wf_tasks sp)) then length (spec_next_tasks sp n) else 0).
+Proof.
+  intros sp n. destruct (in_dec string_dec n (map fst (wf_tasks sp))) as [I|I]; [lia|].
+  destruct (spec_next_tasks sp n) as [|x l] eqn:E; [simpl; lia|]. exfalso. apply I.
+  apply (next_tasks_declared sp n x). rewrite E. left. reflexivity.
+Qed.
+
+Lemma length_sort_by : forall A (leb : A -> A -> bool) l, length (sort_by leb l) = length l.
+Proof. intros A leb l. apply Permutation_length, perm_sort_by. Qed.
+
+Lemma in_cycle_loop_fuel : forall sp t, NoDup (map fst (wf_tasks sp)) -> forall fuel q trav,
+  length q + wsum sp (fun k => String.eqb k t || string_in k trav) (wf_tasks sp) <= fuel ->
+  in_cycle_loop sp t fuel q trav <> None.
+Proof.
+  intros sp t Hnd fuel. induction fuel as [|f IH]; intros q trav H; destruct q as [|n q]; simpl; try discriminate.
+  - simpl in H. lia.
+  - destruct (String.eqb n t) eqn:Et; [discriminate|].
+    destruct (string_in n trav) eqn:Es.
+    + apply IH. simpl in H. lia.
+    + apply IH. rewrite app_length, map_length. unfold spec_next_sorted. rewrite length_sort_by.
+      pose proof (wsum_step sp (fun k => String.eqb k t || string_in k trav) n (wf_tasks sp)) as S.
+      simpl in S. rewrite Et, Es in S. specialize (S eq_refl Hnd).
+      pose proof (next_len_declared sp n) as L.
+      rewrite (wsum_ext sp (fun k => String.eqb k t || string_in k (n :: trav))
+                        (fun k => String.eqb k n || (String.eqb k t || string_in k trav))).
+      * simpl in H. lia.
+      * intro k. unfold string_in. simpl. destruct (String.eqb k t); destruct (String.eqb k n); reflexivity.
+Qed.
+
+Theorem spec_in_cycle_total : forall sp t, NoDup (map fst (wf_tasks sp)) -> spec_in_cycle sp t <> None.
+Proof.
+  intros sp t Hnd. unfold spec_in_cycle. apply in_cycle_loop_fuel; [exact Hnd|].
+  rewrite map_length. unfold spec_next_sorted. rewrite length_sort_by.
+  pose proof (wsum_step sp (fun _ => false) t (wf_tasks sp) eq_refl Hnd) as S.
+  pose proof (next_len_declared sp t) as L.
+  assert (Z : wsum sp (fun _ => false) (wf_tasks sp) = spec_size sp).
+  { unfold wsum, spec_size. clear. induction (wf_tasks sp) as [|[n ts] l IH]; simpl; [reflexivity|].
+    rewrite app_length, IH. reflexivity. }
+  rewrite (wsum_ext sp (fun k => String.eqb k t || string_in k []) (fun k => String.eqb k t || false))
+    by (intro k; reflexivity).
+  lia.
+Qed.
+
+(* ------------------------------------------ the only failure of compose is the worklist's fuel *)
+
+(* every transition target is an engine command or a declared task (inspect() rejects the rest) *)
+Definition targets_defined (sp : wf_spec) : Prop :=
+  forall t d w i, In (d, w, i) (spec_next_tasks sp t) ->
+    string_in d RESERVED_TASK_NAMES = true \/ In d (map fst (wf_tasks sp)).
+
+Lemma aget_of_in : forall (V : Type) (k : string) (l : list (string * V)),
+  In k (map fst l) -> aget String.eqb k l <> None.
+Proof.
+  intros V k l. induction l as [|[k' v] l IH]; simpl; [contradiction|].
+  intros [H|H]; [subst; rewrite String.eqb_refl; discriminate|].
+  destruct (String.eqb k k'); [discriminate|apply IH; exact H].
+Qed.
+
+Lemma reach_defined : forall sp t, targets_defined sp -> reach sp t -> spec_get_task sp t <> None.
+Proof.
+  intros sp t Hw Hr.
+  assert (H : string_in t RESERVED_TASK_NAMES = true \/ In t (map fst (wf_tasks sp))).
+  { destruct Hr as [t Hs|t0 d w i _ Hin _]; [right; apply in_start_tasks in Hs; tauto|eapply Hw; eauto]. }
+  unfold spec_get_task. destruct (string_in t RESERVED_TASK_NAMES); [discriminate|].
+  destruct H as [H|H]; [discriminate|apply aget_of_in; exact H].
+Qed.
+
+Section Total.
+  Variable sp : wf_spec.
+  Hypothesis Hnd : NoDup (map fst (wf_tasks sp)).
+
+  Lemma in_cycle_r_val : forall t, exists b, in_cycle_r sp t = Val b.
+  Proof.
+    intro t. unfold in_cycle_r. pose proof (spec_in_cycle_total sp t Hnd) as H.
+    destruct (spec_in_cycle sp t) as [b|]; [eauto|contradiction].
+  Qed.
+
+  Lemma step_next_val : forall t splits w nx, exists w', step_next sp t splits (Val w) nx = Val w'.
+  Proof.
+    intros t splits w nx. unfold step_next. destruct (String.eqb (nt_name nx) "retry"); [eauto|].
+    destruct (has_node (nt_name nx) (w_nodes w)); [|eauto].
+    destruct (in_cycle_r_val (nt_name nx)) as [b Hb]. rewrite Hb. eauto.
+  Qed.
+
+  Lemma fold_step_val : forall t splits l w, exists w', fold_left (step_next sp t splits) l (Val w) = Val w'.
+  Proof.
+    intros t splits l. induction l as [|nx l IH]; intro w; cbn [fold_left]; [eauto|].
+    destruct (step_next_val t splits w nx) as [w1 H1]. rewrite H1. apply IH.
+  Qed.
+
+  Lemma process_val : forall rt w t splits, spec_get_task sp t <> None -> exists w', process sp rt w t splits = Val w'.
+  Proof.
+    intros rt w t splits Ht. unfold process. destruct (spec_get_task sp t) as [ts|]; [|contradiction].
+    assert (C : exists b, (if spec_is_split_task sp t then in_cycle_r sp t else Val true) = Val b).
+    { destruct (spec_is_split_task sp t); [apply in_cycle_r_val|eauto]. }
+    destruct C as [b Hb]. rewrite Hb.
+    match goal with |- context [fold_left ?f ?l (Val ?w0)] => destruct (fold_step_val t (if b then splits else app splits [t]) l w0) as [w' Hw'] end.
+    rewrite Hw'. eauto.
+  Qed.
+
+  Hypothesis Hw : targets_defined sp.
+
+  Lemma compose_loop_exc : forall rt fuel w e, Core sp w -> DoneOk sp rt [] w ->
+    compose_loop sp rt fuel w = Exc e -> e = x_out_of_fuel.
+  Proof.
+    intros rt fuel. induction fuel as [|f IH]; intros w e C D H; simpl in H.
+    - destruct (w_queue w) as [|[t s] q']; [discriminate|]. injection H as H. auto.
+    - destruct (w_queue w) as [|[t s] q'] eqn:Eq; [discriminate|].
+      assert (Hr : reach sp t).
+      { apply (co_reach sp w C). right. right. unfold qnames. rewrite Eq. left. reflexivity. }
+      destruct (process_val rt (popped w q') t s (reach_defined sp t Hw Hr)) as [w1 H1].
+      unfold popped in H1. rewrite H1 in H.
+      destruct (process_inv sp rt w t s q' w1 C D Eq H1) as [C1 D1].
+      apply (IH w1 e C1 D1 H).
+  Qed.
+
+  Theorem compose_only_fuel_error : forall rt fuel e, compose sp rt fuel = Exc e -> e = x_out_of_fuel.
+  Proof.
+    intros rt fuel e H. unfold compose in H. destruct (compose_work sp rt fuel) as [w|e'] eqn:E; [discriminate|].
+    injection H as H. subst e'. unfold compose_work in E.
+    apply (compose_loop_exc rt fuel _ e (init_core sp) (init_doneok sp rt) E).
+  Qed.
+End Total.
+
+(* ------------------------------------------------------------- more fuel, same graph *)
+
+Lemma compose_loop_more_fuel : forall sp rt f w w', compose_loop sp rt f w = Val w' ->
+  forall k, compose_loop sp rt (f + k) w = Val w'.
+Proof.
+  intros sp rt f. induction f as [|f IH]; intros w w' H k; simpl in H.
+  - destruct (w_queue w) as [|[t s] q'] eqn:Eq; [|discriminate].
+    destruct k; simpl; rewrite Eq; exact H.
+  - simpl. destruct (w_queue w) as [|[t s] q']; [exact H|].
+    destruct (process sp rt _ t s) as [w1|e]; [|discriminate]. apply IH. exact H.
+Qed.
+
+Theorem compose_fuel_irrelevant : forall sp rt f1 f2 g1 g2,
+  compose sp rt f1 = Val g1 -> compose sp rt f2 = Val g2 -> g1 = g2.
+Proof.
+  intros sp rt f1 f2 g1 g2 H1 H2. unfold compose, compose_work in *.
+  destruct (compose_loop sp rt f1 (compose_init sp)) as [w1|] eqn:E1; [|discriminate].
+  destruct (compose_loop sp rt f2 (compose_init sp)) as [w2|] eqn:E2; [|discriminate].
+  injection H1 as H1. injection H2 as H2. subst.
+  pose proof (compose_loop_more_fuel sp rt f1 _ w1 E1 f2) as A.
+  pose proof (compose_loop_more_fuel sp rt f2 _ w2 E2 f1) as B.
+  rewrite Nat.add_comm in B. rewrite A in B. injection B as B. subst. reflexivity.
+Qed.
+
 (* --------------------------------------------------------- a concrete definition (examples) *)
 
 Definition ex_tr (w : json) (d : list string) : transition_spec :=
@@ -1136,3 +1697,20 @@ Definition ex_graph : graph :=
 
 Lemma ex_compose : compose ex_spec ex_rt 20 = Val ex_graph.
 Proof. vm_compute. reflexivity. Qed.
+
+Definition ex_spec_sorted : wf_spec :=
+  {| wf_input := []; wf_vars := []; wf_output := [];
+     wf_tasks := sort_by (fun a b => String.leb (fst a) (fst b)) (wf_tasks ex_spec) |}.
+
+Lemma ex_targets_defined : targets_defined ex_spec.
+Proof.
+  intros t d w i H. pose proof (next_tasks_declared ex_spec t _ H) as Hk. simpl in Hk.
+  repeat (destruct Hk as [Hk|Hk]; [subst t; vm_compute in H;
+    repeat (destruct H as [H|H]; [injection H as H1 H2 H3; subst d; vm_compute; tauto|]); contradiction|]).
+  contradiction.
+Qed.
+
+Lemma ex_nodup : NoDup (map fst (wf_tasks ex_spec)).
+Proof.
+  simpl. repeat (constructor; [simpl; intro H; repeat (destruct H as [H|H]; [discriminate|]); exact H|]). constructor.
+Qed.
